@@ -32,6 +32,25 @@ Oracles (all independent of the code under test):
       EOM.getBoltzmannFiniteDifference (run on a stub holding the solver) equals a directly
       constructed finite-difference solver and leaves the original solver untouched.
 
+  (6) history (kind=hist): the grid object a solver was constructed on is rescaled *in place*
+      afterwards (Grid / Grid3Scales changePositionFalloffScale - tails, thickness, centre -
+      and changeMomentumFalloffScale; far, near-identity, and sequences of 3-4 rescales with
+      a solve in between, which is what the EOM loop does on every iteration).  The solver
+      that existed before the rescale then gets the background sampled on the grid as it is
+      now and must (a) satisfy the linear system assembled independently
+      (oracles.c12_ref.reference_system: own Lobatto differentiation matrices, complex-step
+      source) for the ACTUAL grid - whose coordinates and Jacobians are taken from a grid
+      constructed from scratch with the same parameters (plain Grid: also the documented
+      closed form); (b) agree with an identically configured solver constructed after the
+      rescale on the same grid object, and that one with a solver on the from-scratch grid;
+      (c) agree, deltaF and all derived quantities, with the Cardinal/Cardinal solver built
+      after the rescale (basis independence across the rescale); (d) on polynomial-in-chi
+      backgrounds pass the closed-form exactness oracles of (5).  A failure of (a) with a
+      clean control is attributed by re-assembling the reference with the Jacobians /
+      momenta the grid object had at earlier stages.  Monitors on Grid._cacheCoordinates and
+      BoltzmannSolver.__init__ count assemblies that really happened on a grid refreshed
+      after the solver's construction (floor: build_on_grid_rescaled_after_construction).
+
 Tolerances are propagated per case (see the K_* constants and their calibration notes).
 
 Deviations from DESIGN section 4-C12 (kept here because DESIGN.md is not mine to edit):
@@ -72,9 +91,16 @@ RULE = ("kind=basis: random (M in 10..40, N in {3,5,7}(,11 thorough), 1-3 partic
         "a unit-rescaled copy, the homogeneous limit, and EOM.getBoltzmannFiniteDifference. "
         "kind=conv: finite-difference vs spectral series over M for one background type. "
         "kind=phys: polynomial-in-chi backgrounds, exactness of source and operator. "
+        "kind=hist: solvers (random basis pair, sometimes also Cardinal/Cardinal and finite "
+        "difference; 60 % already solved once) are constructed on a Grid3Scales (2/3) or plain "
+        "Grid (1/3), then the grid object is rescaled in place following a plan cycled over "
+        "pos / pos-near / mom / mom-near / both / seq (factors 0.4-2.5, near-identity 1+-1e-6.."
+        "1e-2, Grid3Scales: tails / thickness / centre / all), background tanh (3/4) or "
+        "polynomial (1/4) resampled on the current grid; system size <= 500 quick / 1300. "
         "A case is non-trivial when the reference deviation is non-zero and the operator is "
         "admissibly conditioned (kappa_1 <= 1e8); distinct by (kind, background type, M, N, "
         "particle statistics, number of fields, collision home basis, case seed).")
+# (hist cases add grid class, plan and operations through the case seed in the key)
 ASSUMPTIONS = [
     "collision operators are synthetic (all shipped .hdf5 are git-LFS pointers): "
     "diagonal relaxation + dense noise, non-singular by construction and checked via kappa_1",
@@ -84,28 +110,53 @@ ASSUMPTIONS = [
     "the grid itself)",
     "finite-difference convergence is judged with a test deviation quadratic in rho_z so that "
     "the 3-point momentum stencil is exact and only the spatial refinement is measured",
+    "history cases: the collision kernel is a given dimensionless array on the momentum nodes "
+    "and stays the same when the momentum falloff scale of the grid is changed (the shipped "
+    "pipeline never changes that scale after loading collisions; the solver treats the array "
+    "as an input either way); 'the actual current grid' is represented by a Grid/Grid3Scales "
+    "constructed from scratch with the current parameters",
 ]
 CASE_TIMEOUT = 900
 CHUNK = 1
 EXHAUSTIVE = {"quick": False, "thorough": False}
+_HIST_CLS = ("hist:pos", "hist:pos-near", "hist:mom", "hist:mom-near", "hist:both", "hist:seq")
 FLOORS = {
-    "quick": {"distinct_nontrivial": 100,
+    "quick": {"distinct_nontrivial": 140,
               "mon": {"solve_contract": 600, "build_calls": 1400, "setBackground_contract": 600,
                       "basis_pairs_deltaF": 170, "basis_derived_judged": 5000,
                       "homogeneous": 112, "unit_scaling": 56, "eom_fd": 56,
-                      "fd_series_points": 42, "source_exact": 28, "operator_exact": 84},
+                      "fd_series_points": 42, "source_exact": 28, "operator_exact": 84,
+                      # history dimension (observed on seeds 0-4: 74-80 rescales, 190-200
+                      # assemblies on a grid refreshed after the solver's construction)
+                      "hist_rescale_calls": 60, "hist_grid_state_changed": 60,
+                      "hist_grid_vs_fresh_grid": 60,
+                      "build_on_grid_rescaled_after_construction": 130,
+                      "hist_refsys_judged": 90, "hist_early_vs_fresh": 55,
+                      "hist_fresh_grid_solver": 40, "hist_basis_across_rescale": 42,
+                      "hist_derived_judged": 5000, "hist_exactness": 8},
               "cls": {"basis:T": 12, "basis:v": 12, "basis:field": 12, "basis:combined": 12,
                       "conv:T": 3, "conv:v": 3, "conv:field": 3, "conv:combined": 3,
-                      "phys": 28}},
-    "thorough": {"distinct_nontrivial": 700,
+                      "phys": 28, "hist": 40, "hist:Grid": 10, "hist:Grid3Scales": 24,
+                      "hist:bg:T": 9, "hist:bg:v": 9, "hist:bg:field": 9, "hist:bg:combined": 9,
+                      **{c: 6 for c in _HIST_CLS}}},
+    "thorough": {"distinct_nontrivial": 900,
                  "mon": {"solve_contract": 3000, "build_calls": 7000,
                          "setBackground_contract": 3000, "basis_pairs_deltaF": 1100,
                          "basis_derived_judged": 20000, "homogeneous": 760,
                          "unit_scaling": 380, "eom_fd": 380, "fd_series_points": 300,
-                         "source_exact": 280, "operator_exact": 850},
+                         "source_exact": 280, "operator_exact": 850,
+                         "hist_rescale_calls": 300, "hist_grid_state_changed": 300,
+                         "hist_grid_vs_fresh_grid": 300,
+                         "build_on_grid_rescaled_after_construction": 650,
+                         "hist_refsys_judged": 450, "hist_early_vs_fresh": 275,
+                         "hist_fresh_grid_solver": 200, "hist_basis_across_rescale": 210,
+                         "hist_derived_judged": 25000, "hist_exactness": 40},
                  "cls": {"basis:T": 90, "basis:v": 90, "basis:field": 90,
                          "basis:combined": 90, "conv:T": 18, "conv:v": 18, "conv:field": 18,
-                         "conv:combined": 18, "phys": 280}},
+                         "conv:combined": 18, "phys": 280, "hist": 200, "hist:Grid": 50,
+                         "hist:Grid3Scales": 120, "hist:bg:T": 45, "hist:bg:v": 45,
+                         "hist:bg:field": 45, "hist:bg:combined": 45,
+                         **{c: 30 for c in _HIST_CLS}}},
 }
 
 EPS = R.EPS
@@ -143,6 +194,16 @@ FD_MAX_FINEST = 5e-2  # DESIGN: "below 5e-2 at M=80"
 # Observed max of difference/tolerance: source 8e-3, Liouville 7e-2, collision 3e-3.
 K_SRC = 64.0
 K_OP = 64.0
+# Reference system (own Lobatto differentiation matrices + complex-step source, see
+# oracles.c12_ref.reference_system) vs the deviation returned by the real solver: normwise
+# backward error eta <= K_REF*eps*M^2*(1 + 1/a).  Terms: spectral derivative of a profile of
+# relative variation a -> eps*M^2/a (as K_HOM); derivative-matrix entries and the evaluation
+# of d f_eq (exp(x) - 2s + exp(-x) cancels for soft bosons) -> a floor that does not shrink
+# with a.  Observed on the unchanged tree (kind=hist, quick seeds 0-4 + thorough seeds 0-1,
+# 720 cases, every stage of every history): eta <= 1.1e-13 absolute, max of
+# eta/(eps*M^2*(1+1/a)) = 0.8, median 2e-3  ->  64 leaves 80x.  A Jacobian that is off by a
+# relative delta shows up as eta ~ 0.8*delta, so near-identity rescales down to ~1e-9 are seen.
+K_REF = 64.0
 
 
 def worker_init():
@@ -170,9 +231,13 @@ def _fingerprint(op, src):
 
 
 def _state_token(solver):
+    # the grid epoch (number of coordinate refreshes of the shared grid object, see
+    # _install_monitors) is part of the state: a rescaled grid legitimately changes the
+    # assembled system of an otherwise untouched solver
     return (id(solver.background), id(solver.collisionArray), solver.basisM, solver.basisN,
             solver.derivatives, solver.collisionMultiplier, id(solver.offEqParticles),
-            solver.collisionArray.getBasisType() if solver.collisionArray is not None else None)
+            solver.collisionArray.getBasisType() if solver.collisionArray is not None else None,
+            getattr(solver.grid, "_c12_epoch", None))
 
 
 def _kappa1(op):
@@ -251,9 +316,25 @@ def _judge_setbg(solver, given, snap):
 
 def _install_monitors():
     from WallGo.boltzmann import BoltzmannSolver as BS
+    from WallGo.grid import Grid
     if getattr(BS, "_c12_wrapped", False):
         return
     o_build, o_solve, o_setbg = BS.buildLinearEquations, BS.solveBoltzmannEquations, BS.setBackground
+    o_init, o_cache = BS.__init__, Grid._cacheCoordinates
+
+    # history monitors: every refresh of a grid's cached coordinates / Jacobians (constructor
+    # and each change*FalloffScale call, Grid3Scales included - it inherits the method)
+    # advances an epoch stored on the grid object; a solver remembers the epoch of its grid
+    # at construction.  An assembly with grid epoch > construction epoch is the
+    # "grid rescaled in place after the solver was built" situation of the EOM loop.
+    def _cacheCoordinates(self):
+        out = o_cache(self)
+        self._c12_epoch = getattr(self, "_c12_epoch", 0) + 1
+        return out
+
+    def __init__(self, grid, *a, **k):
+        o_init(self, grid, *a, **k)
+        self._c12_epoch0 = getattr(grid, "_c12_epoch", None)
 
     def buildLinearEquations(self):
         out = o_build(self)
@@ -261,6 +342,9 @@ def _install_monitors():
             REC.nbuild += 1
             REC.last = out
             REC.mon["build_calls"] += 1
+            e0, e1 = getattr(self, "_c12_epoch0", None), getattr(self.grid, "_c12_epoch", None)
+            if e0 is not None and e1 is not None and e1 > e0:
+                REC.mon["build_on_grid_rescaled_after_construction"] += 1
             tok = _state_token(self)
             fp = _fingerprint(out[0], out[1])
             old = REC.fp.get(id(self))
@@ -301,6 +385,8 @@ def _install_monitors():
     BS.buildLinearEquations = buildLinearEquations
     BS.solveBoltzmannEquations = solveBoltzmannEquations
     BS.setBackground = setBackground
+    BS.__init__ = __init__
+    Grid._cacheCoordinates = _cacheCoordinates
     BS._c12_wrapped = True
 
 
@@ -434,18 +520,106 @@ def generate(tier, seed):
                             "r": [float(x) for x in rng.uniform(-1, 1, size=int(min(3, N - 1)))],
                             "w": [float(x) for x in rng.uniform(-1, 1, size=int(min(2, N - 1)))]},
                       "s": int(rng.integers(1 << 30))})
+    # kind=hist is appended after the older kinds so that their random streams (and the
+    # calibration notes that refer to them) stay what they were
+    nh = 12 if tier == "quick" else 60          # per background type
+    for b, bgtype in enumerate(BG_TYPES):
+        for j in range(nh):
+            cases.append(_gen_hist(rng, tier, bgtype, HIST_PLANS[j % len(HIST_PLANS)],
+                                   "Grid" if (j + b) % 3 == 0 else "Grid3Scales",
+                                   "poly" if (j // len(HIST_PLANS) + j + b) % 4 == 0 else "tanh"))
     for i, c in enumerate(cases):
         c["i"] = i
     return cases
+
+
+HIST_PLANS = ("pos", "pos-near", "mom", "mom-near", "both", "seq")
+
+
+def _hist_step(rng, gridKind, st, op, near, cfg, span):
+    """Next grid state (units: background length L, background temperature T0)."""
+    def fac():
+        if near:
+            return 1.0 + float(rng.choice([-1, 1])) * 10.0 ** float(rng.uniform(-6.0, -2.0))
+        f = float(np.exp(rng.uniform(-np.log(span), np.log(span))))
+        return f if abs(np.log(f)) > 0.05 else 1.3
+
+    st = dict(st)
+    which = "-"
+    if op == "mom":
+        st["Tmom"] *= fac()
+    elif gridKind == "Grid":
+        st["L"] *= fac()
+        which = "falloff"
+    else:
+        which = str(rng.choice(["tails", "thickness", "centre", "all"], p=[0.2, 0.3, 0.1, 0.4]))
+        if which in ("tails", "all"):
+            st["tailIn"] *= fac()
+            st["tailOut"] *= fac()
+        if which in ("thickness", "all"):
+            st["L"] *= fac()
+        if which in ("centre", "all"):
+            st["c"] += (fac() - 1.0) if near else float(rng.uniform(-1.0, 1.0))
+        # admissible domain of Grid3Scales: tails > L (1/2 + smoothing) / ratio (10 % margin;
+        # EOM itself keeps 1.05 on the smoothing only)
+        bound = 1.1 * st["L"] * (0.5 + cfg["smoothing"]) / cfg["ratio"]
+        st["tailIn"] = max(st["tailIn"], bound)
+        st["tailOut"] = max(st["tailOut"], bound)
+    return {"op": op, "which": which, "near": bool(near), "state": st}
+
+
+def _gen_hist(rng, tier, bgtype, plan, gridKind, bgkind):
+    cap = 500 if tier == "quick" else 1300
+    while True:
+        N = int(rng.choice([3, 5, 7]))
+        P = int(rng.choice([1, 2, 3], p=[0.5, 0.3, 0.2]))
+        mmax = min(32, cap // (P * (N - 1) ** 2) + 1)
+        if mmax >= 8:
+            M = int(rng.integers(8, mmax + 1))
+            break
+    cfg = _gen_cfg(rng, bgtype, bgkind, N, P, M)
+    cfg["gridKind"] = gridKind
+    st = {"tailIn": cfg["tailIn"], "tailOut": cfg["tailOut"], "L": 1.0, "c": 0.0, "Tmom": 1.0}
+    if plan in ("pos", "pos-near", "mom", "mom-near"):
+        ops = [(plan[:3], plan.endswith("near"), 2.5)]
+    elif plan == "both":
+        first = str(rng.choice(["pos", "mom"]))
+        ops = [(first, bool(rng.random() < 0.3), 2.0),
+               ("mom" if first == "pos" else "pos", bool(rng.random() < 0.3), 2.0)]
+    else:
+        ops = [(str(rng.choice(["pos", "pos", "mom"])), bool(rng.random() < 0.4), 1.6)
+               for _ in range(int(rng.integers(3, 5)))]
+        if all(o[0] == "mom" for o in ops):
+            ops[0] = ("pos", ops[0][1], 1.6)
+    steps = []
+    for op, near, span in ops:
+        stp = _hist_step(rng, gridKind, st, op, near, cfg, span)
+        st = stp["state"]
+        steps.append(stp)
+    # solvers constructed before the first rescale: one spectral solver in a random basis
+    # pair, plus (sometimes) the Cardinal/Cardinal one and a finite-difference one
+    early = [[str(rng.choice(BASES)), str(rng.choice(BASES)), "Spectral"]]
+    if rng.random() < 0.4 and early[0][:2] != ["Cardinal", "Cardinal"]:
+        early.append(["Cardinal", "Cardinal", "Spectral"])
+    if rng.random() < 0.35:
+        early.append(["Cardinal", "Cardinal", "Finite Difference"])
+    return {"kind": "hist", "cfg": cfg, "plan": plan, "steps": steps, "early": early,
+            "warm": bool(rng.random() < 0.6),           # solved once on the initial grid
+            "keep_coll": bool(rng.random() < 0.7),      # collision array attached before the
+                                                        # rescale stays (as in WallGoManager)
+            "interleave": bool(rng.random() < 0.6),     # setBackground + solve at every stage
+            "g": {"q": [float(x) for x in rng.uniform(-1, 1, size=3)],
+                  "r": [float(x) for x in rng.uniform(-1, 1, size=int(min(3, N - 1)))],
+                  "w": [float(x) for x in rng.uniform(-1, 1, size=int(min(2, N - 1)))]},
+            "s": int(rng.integers(1 << 30))}
 
 
 # ------------------------------------------------------------------------------ setups
 class Setup:
     """Materialises one configuration with the real WallGo classes."""
 
-    def __init__(self, cfg, M=None, T0=None, homogeneous=False):
+    def __init__(self, cfg, M=None, T0=None, homogeneous=False, gridState=None):
         import WallGo
-        from WallGo.grid3Scales import Grid3Scales
         cfg = copy.deepcopy(cfg)
         if homogeneous:
             cfg["bg"]["T"]["a"] = 0.0
@@ -457,9 +631,11 @@ class Setup:
         self.N = int(cfg["N"])
         self.T0 = float(T0 if T0 is not None else cfg["T0"])
         self.L = cfg["ell"] / self.T0
-        self.grid = Grid3Scales(self.M, self.N, cfg["tailIn"] * self.L, cfg["tailOut"] * self.L,
-                                self.L, self.T0, ratioPointsWall=cfg["ratio"],
-                                smoothing=cfg["smoothing"])
+        # self.L / self.T0 are the length and temperature scales of the *background*; the
+        # grid's own scales start out equal to them (state0) and may be moved by the history
+        # cases, either in place or - gridState - by building the grid from other values
+        self.gridKind = cfg.get("gridKind", "Grid3Scales")
+        self.grid = self.newGrid(gridState or self.state0())
         self.prof = R.Profiles(cfg["bg"], self.T0, self.L)
         self.parts_spec = cfg["parts"]
         T0sq = self.T0 ** 2
@@ -477,14 +653,7 @@ class Setup:
 
         self.particles = [WallGo.Particle(f"p{a}", a, mk(sp), None, sp["stat"], 12)
                           for a, sp in enumerate(self.parts_spec)]
-        chi = self.grid.getCompactCoordinates(endpoints=True)[0]
-        xi = self.grid.getCoordinates(endpoints=True)[0]
-        self.chiFull, self.xiFull = chi, xi
-        T = self.prof.T(chi, xi) * np.ones_like(chi)
-        v = self.prof.vWallFrame(chi, xi) * np.ones_like(chi)
-        F = np.stack([f * np.ones_like(chi) for f in self.prof.fields(chi, xi)], axis=1)
-        self.background = WallGo.BoltzmannBackground(self.prof.velocityMid(), v,
-                                                     WallGo.Fields(F), T)
+        self.resample()
         # collision kernel acting on grid values (Cardinal), then the "home" representation
         cs = cfg["coll"]
         rng = np.random.default_rng(cs["s"])
@@ -499,6 +668,44 @@ class Setup:
         self.home = cs["home"]
         self.Chome = C if self.home == "Cardinal" else R.collision_cardinal_to_chebyshev(C, self.N)
         self.mult = cs["mult"]
+
+    def state0(self):
+        """Grid scales in units of the background's L (lengths) and T0 (momenta)."""
+        return {"tailIn": self.cfg["tailIn"], "tailOut": self.cfg["tailOut"], "L": 1.0,
+                "c": 0.0, "Tmom": 1.0}
+
+    def newGrid(self, st):
+        from WallGo.grid import Grid
+        from WallGo.grid3Scales import Grid3Scales
+        if self.gridKind == "Grid":
+            return Grid(self.M, self.N, st["L"] * self.L, st["Tmom"] * self.T0)
+        return Grid3Scales(self.M, self.N, st["tailIn"] * self.L, st["tailOut"] * self.L,
+                           st["L"] * self.L, st["Tmom"] * self.T0,
+                           ratioPointsWall=self.cfg["ratio"], smoothing=self.cfg["smoothing"],
+                           wallCenter=st["c"] * self.L)
+
+    def rescaleInPlace(self, op, st):
+        """The in-place grid mutations offered by the classes (what EOM does per iteration)."""
+        if op == "mom":
+            self.grid.changeMomentumFalloffScale(st["Tmom"] * self.T0)
+        elif self.gridKind == "Grid":
+            self.grid.changePositionFalloffScale(st["L"] * self.L)
+        else:
+            self.grid.changePositionFalloffScale(st["tailIn"] * self.L, st["tailOut"] * self.L,
+                                                 st["L"] * self.L, st["c"] * self.L)
+
+    def resample(self):
+        """Background = the analytic profiles sampled on the grid as it is *now*."""
+        import WallGo
+        chi = self.grid.getCompactCoordinates(endpoints=True)[0]
+        xi = self.grid.getCoordinates(endpoints=True)[0]
+        self.chiFull, self.xiFull = chi, xi
+        T = self.prof.T(chi, xi) * np.ones_like(chi)
+        v = self.prof.vWallFrame(chi, xi) * np.ones_like(chi)
+        F = np.stack([f * np.ones_like(chi) for f in self.prof.fields(chi, xi)], axis=1)
+        self.background = WallGo.BoltzmannBackground(self.prof.velocityMid(), v,
+                                                     WallGo.Fields(F), T)
+        return self.background
 
     def collisionArray(self, basisN):
         """Fresh CollisionArray in its home basis, moved to basisN by the code's own
@@ -599,9 +806,10 @@ def _guarded(fn, viol, ctx):
         raise CodeRaised(ctx) from exc
 
 
-def _run(setup, bM, bN, mode, viol, ctx):
-    """One real solver run under the monitors."""
-    s = _guarded(lambda: setup.solver(bM, bN, mode), viol, ctx)
+def _run(setup, bM, bN, mode, viol, ctx, solver=None):
+    """One real solver run under the monitors (on a freshly constructed solver, or on the
+    one handed in - the history cases keep solvers alive across grid rescales)."""
+    s = solver if solver is not None else _guarded(lambda: setup.solver(bM, bN, mode), viol, ctx)
     res = _guarded(s.getDeltas, viol, ctx)
     solves = _collect(viol, None, ctx)
     sv = solves[-1] if solves else {}
@@ -642,6 +850,43 @@ def _sensitivities(run, setup, rng):
                 S[k] = np.fmax(S[k], np.abs(q[k] - q0[k]) / E_PROBE)
     _Session.drain()
     return q0, S
+
+
+def _judge_derived(q0, S, tau, others, mon, viol, monname, mech_of, reflabel, ctx):
+    """Derived quantities of ``others`` (label -> _derived dict) against the reference values
+    q0, tolerance K_DER * (measured sensitivity S) * (deltaF tolerance tau) + 64 eps |q0|."""
+    der_obs = {}
+    for name in q0:
+        tolq = K_DER * S[name] * tau + 64 * EPS * np.abs(q0[name])
+        with np.errstate(all="ignore"):
+            judged = np.isfinite(q0[name]) & np.isfinite(tolq) \
+                & (tolq <= 1e-4 * np.abs(q0[name]))
+        if name.startswith("D"):
+            # moments: judge against the per-position scale, skip nothing
+            judged = np.isfinite(tolq)
+        nj = int(np.sum(judged))
+        mon[monname + "_judged"] += nj * len(others)
+        mon[monname + "_illconditioned"] += int(np.size(judged) - nj) * len(others)
+        worstq = 0.0
+        for label, der in others.items():
+            with np.errstate(all="ignore"):
+                e = np.abs(der[name] - q0[name])
+                ratio = np.where(judged, e / np.where(tolq > 0, tolq, 1.0), 0.0)
+                ratio = np.where(judged & ~np.isfinite(e), np.inf, ratio)
+            rmax = float(np.max(ratio)) if ratio.size else 0.0
+            worstq = max(worstq, rmax)
+            if rmax > 1.0:
+                idx = np.unravel_index(int(np.argmax(ratio)), ratio.shape) if ratio.ndim else ()
+                viol.append({
+                    "mech": mech_of(name),
+                    "msg": f"{name} from getDeltas differs between {reflabel} and "
+                           f"{label}: {np.asarray(der[name])[idx]!r} vs "
+                           f"{np.asarray(q0[name])[idx]!r}, tolerance "
+                           f"{float(np.asarray(tolq)[idx]):.3e} {ctx}",
+                    "data": {"name": name, "ratio": rmax}})
+                break
+        der_obs[name] = {"judged": nj, "of": int(np.size(judged)), "worst_ratio": worstq}
+    return der_obs
 
 
 def _case_basis(case):
@@ -710,41 +955,13 @@ def _case_basis(case):
         else:
             # ---- derived quantities (only meaningful when deltaF itself agrees)
             q0, S = _sensitivities(ref, setup, rng)
-            der_obs = {}
-            for name in q0:
-                tolq = K_DER * S[name] * tau + 64 * EPS * np.abs(q0[name])
-                with np.errstate(all="ignore"):
-                    judged = np.isfinite(q0[name]) & np.isfinite(tolq) \
-                        & (tolq <= 1e-4 * np.abs(q0[name]))
-                if name.startswith("D"):
-                    # moments: judge against the per-position scale, skip nothing
-                    judged = np.isfinite(tolq)
-                nj = int(np.sum(judged))
-                mon["basis_derived_judged"] += nj * 3
-                mon["basis_derived_illconditioned"] += int(np.size(judged) - nj) * 3
-                worstq = 0.0
-                for k, r in runs.items():
-                    if k == ("Cardinal", "Cardinal"):
-                        continue
-                    with np.errstate(all="ignore"):
-                        e = np.abs(r["derived"][name] - q0[name])
-                        ratio = np.where(judged, e / np.where(tolq > 0, tolq, 1.0), 0.0)
-                        ratio = np.where(judged & ~np.isfinite(e), np.inf, ratio)
-                    rmax = float(np.max(ratio)) if ratio.size else 0.0
-                    worstq = max(worstq, rmax)
-                    if rmax > 1.0:
-                        idx = np.unravel_index(int(np.argmax(ratio)), ratio.shape) if ratio.ndim else ()
-                        viol.append({
-                            "mech": f"{_DER_MECH[name]}-depends-on-basis",
-                            "msg": f"{name} from getDeltas differs between Cardinal/Cardinal and "
-                                   f"{k[0]}/{k[1]}: {np.asarray(r['derived'][name])[idx]!r} vs "
-                                   f"{np.asarray(q0[name])[idx]!r}, tolerance "
-                                   f"{float(np.asarray(tolq)[idx]):.3e} while deltaF itself agrees "
-                                   f"to {worst:.2e}; M={M} N={N} P={P} bg={bgtype}",
-                            "data": {"name": name, "ratio": rmax}})
-                        break
-                der_obs[name] = {"judged": nj, "of": int(np.size(judged)), "worst_ratio": worstq}
-            obs["derived"] = der_obs
+            others = {f"{k[0]}/{k[1]}": r["derived"] for k, r in runs.items()
+                      if k != ("Cardinal", "Cardinal")}
+            obs["derived"] = _judge_derived(
+                q0, S, tau, others, mon, viol, "basis_derived",
+                lambda name: f"{_DER_MECH[name]}-depends-on-basis",
+                "Cardinal/Cardinal", f"while deltaF itself agrees to {worst:.2e}; "
+                f"M={M} N={N} P={P} bg={bgtype}")
 
         # ---- (5a) unit rescaling: same compact grid, temperatures/fields * s, lengths / s
         s_ = case["scale"]
@@ -1010,89 +1227,413 @@ def _case_phys(case):
     with _Session():
         mon = REC.mon
         st = Setup(cfg)
-        M, N, P = st.M, st.N, len(st.particles)
         s = _guarded(lambda: st.solver(bM, bN, "Spectral"), viol, "phys")
-        op, src, liou, coll = _guarded(s.buildLinearEquations, viol, "phys")
+        built = _guarded(s.buildLinearEquations, viol, "phys")
         _collect(viol, None, "phys")
-        chi, rz, rp = R.nodes(M, N)
-        gc = s.grid.getCompactCoordinates()
-        if max(np.abs(gc[0] - chi).max(), np.abs(gc[1] - rz).max(), np.abs(gc[2] - rp).max()) > 4 * EPS:
-            return _finish(case, obs, viol, "phys", "grid nodes are not the documented "
-                           "Gauss-Lobatto points (C17's business)", False)
         dxidchi, dpzdrz, _ = s.grid.getCompactificationDerivatives()
         _, pz, pp = s.grid.getCoordinates()
-        # ---- source = -(Liouville)[f_eq]
-        S = np.asarray(src).reshape(P, M - 1, N - 1, N - 1)
-        worst = 0.0
-        # rounding model: each of the three gradient terms carries noise eps*M^2/a_term
-        # relative to its own size (a_term = relative variation of that profile); the sizes
-        # come from the reference evaluated on single-term variants of the background
-        term_profs = []
-        for term in ("T", "v", "field"):
-            cv = _variant(cfg, (term,))
-            term_profs.append((R.Profiles(cv["bg"], st.T0, st.L), _min_amplitude(cv["bg"])))
-        for a, spec in enumerate(cfg["parts"]):
-            ref = R.source_reference(st.prof, spec, chi, dxidchi, pz, pp)
-            scale = np.zeros(ref.shape[1:])
-            for pr, am in term_profs:
-                scale = scale + np.abs(R.source_reference(pr, spec, chi, dxidchi, pz, pp)).max(axis=0) / am
-            scale = scale[None] + 1e-6 * scale.max()
-            tol = K_SRC * EPS * M * M
-            err = float(np.max(np.abs(S[a] - ref) / scale))
-            worst = max(worst, err / tol)
-            mon["source_exact"] += 1
-            if not (err <= tol):
-                viol.append({"mech": "source-differs-from-liouville-of-equilibrium",
-                             "msg": f"source term vs -(P_wall d/dxi - gamma_w/2 dm^2/dxi d/dp_z) f_eq "
-                                    f"(complex-step derivative, polynomial background type "
-                                    f"{cfg['bg']['type']}, {spec['stat']}): difference / (sum of "
-                                    f"term sizes / their relative amplitudes) = {err:.3e} > "
-                                    f"{tol:.2e} = {K_SRC:g}*eps*M^2; max relative difference "
-                                    f"{float(np.abs(S[a] - ref).max() / np.abs(ref).max()):.3e}; "
-                                    f"bases {bM}/{bN} M={M} N={N}",
-                             "data": {"err": err, "tol": tol}})
-                break
-        obs["source_ratio"] = worst
-        # ---- operator on a polynomial test deviation
-        gq = case["g"]
-        g = R.TestDeviation(gq["q"], gq["r"], gq["w"], [1.0 + 0.5 * a for a in range(P)])
-        gv = g.values(chi, rz, rp)
-        coef = R.values_to_coeffs(gv, M, N, bM, bN)
-        Lref, Cref = R.operator_reference(st.prof, cfg["parts"], st.Ccard, st.mult, g, M, N,
-                                          dxidchi, dpzdrz, pz, pp)
-        x = coef.reshape(-1)
-        n = x.size
-        opx = (op @ x).reshape(Lref.shape)
-        Lx = (liou.reshape(n, n) @ x).reshape(Lref.shape)
-        Cx = (coll.reshape(n, n) @ x).reshape(Lref.shape)
-        kb = R.basis_condition(M, N, bM, bN)
-        rowL = (np.abs(liou.reshape(n, n)) @ np.abs(x)).reshape(Lref.shape)
-        rowC = (np.abs(coll.reshape(n, n)) @ np.abs(x)).reshape(Lref.shape)
-        floor = 1e-300
-        checks = (("liouville", Lx, Lref, rowL), ("collision", Cx, Cref, rowC),
-                  ("total", opx, Lref + Cref, rowL + rowC))
-        obs["operator_ratio"] = {}
-        for name, got, want, row in checks:
-            # rounding: derivative-matrix entries carry ~M*eps relative error, the change of
-            # basis of g adds kappa(basis)*eps
-            tol = K_OP * EPS * (M + kb) * (row + floor) + K_OP * EPS * M * np.abs(row).max()
-            ratio = float(np.max(np.abs(got - want) / tol))
-            obs["operator_ratio"][name] = ratio
-            mon["operator_exact"] += 1
-            if not (ratio <= 1.0):
-                rel = float(np.abs(got - want).max() / np.abs(want).max())
-                viol.append({"mech": f"operator-{name}-part-differs-from-closed-form",
-                             "msg": f"{name} part of buildLinearEquations applied to a polynomial "
-                                    f"deviation vs closed form dchi/dxi[P_wall dg/dchi - gamma_w/2 "
-                                    f"dm^2/dchi drz/dpz dg/drz] + mult*T^2*C g: relative "
-                                    f"difference {rel:.3e} ({ratio:.1e} x rounding model); bases "
-                                    f"{bM}/{bN} M={M} N={N} P={P} home={st.home}",
-                             "data": {"rel": rel, "ratio": ratio}})
+        why = _phys_oracles(cfg, st, s, built, bM, bN, case["g"],
+                            {"dxidchi": dxidchi, "dpzdrz": dpzdrz, "pz": pz, "pp": pp},
+                            viol, obs, mon)
+        if why:
+            return _finish(case, obs, viol, "phys", why, False)
         return _finish(case, obs, viol, "phys", None, True)
 
 
+def _phys_oracles(cfg, st, s, built, bM, bN, gq, gridq, viol, obs, mon):
+    """Exactness oracles for backgrounds that are polynomials in chi: source against
+    -(Liouville)[f_eq] by complex step, operator parts against the closed form applied to a
+    polynomial test deviation.  ``gridq`` holds the Jacobians and momenta of the grid the
+    system is supposed to describe.  Returns a reason string when nothing can be judged."""
+    op, src, liou, coll = built
+    M, N, P = st.M, st.N, len(st.particles)
+    dxidchi, dpzdrz, pz, pp = gridq["dxidchi"], gridq["dpzdrz"], gridq["pz"], gridq["pp"]
+    chi, rz, rp = R.nodes(M, N)
+    gc = s.grid.getCompactCoordinates()
+    if max(np.abs(gc[0] - chi).max(), np.abs(gc[1] - rz).max(), np.abs(gc[2] - rp).max()) > 4 * EPS:
+        return "grid nodes are not the documented Gauss-Lobatto points (C17's business)"
+    # ---- source = -(Liouville)[f_eq]
+    S = np.asarray(src).reshape(P, M - 1, N - 1, N - 1)
+    worst = 0.0
+    # rounding model: each of the three gradient terms carries noise eps*M^2/a_term
+    # relative to its own size (a_term = relative variation of that profile); the sizes
+    # come from the reference evaluated on single-term variants of the background
+    term_profs = []
+    for term in ("T", "v", "field"):
+        cv = _variant(cfg, (term,))
+        term_profs.append((R.Profiles(cv["bg"], st.T0, st.L), _min_amplitude(cv["bg"])))
+    for a, spec in enumerate(cfg["parts"]):
+        ref = R.source_reference(st.prof, spec, chi, dxidchi, pz, pp)
+        scale = np.zeros(ref.shape[1:])
+        for pr, am in term_profs:
+            scale = scale + np.abs(R.source_reference(pr, spec, chi, dxidchi, pz, pp)).max(axis=0) / am
+        scale = scale[None] + 1e-6 * scale.max()
+        tol = K_SRC * EPS * M * M
+        err = float(np.max(np.abs(S[a] - ref) / scale))
+        worst = max(worst, err / tol)
+        mon["source_exact"] += 1
+        if not (err <= tol):
+            viol.append({"mech": "source-differs-from-liouville-of-equilibrium",
+                         "msg": f"source term vs -(P_wall d/dxi - gamma_w/2 dm^2/dxi d/dp_z) f_eq "
+                                f"(complex-step derivative, polynomial background type "
+                                f"{cfg['bg']['type']}, {spec['stat']}): difference / (sum of "
+                                f"term sizes / their relative amplitudes) = {err:.3e} > "
+                                f"{tol:.2e} = {K_SRC:g}*eps*M^2; max relative difference "
+                                f"{float(np.abs(S[a] - ref).max() / np.abs(ref).max()):.3e}; "
+                                f"bases {bM}/{bN} M={M} N={N}",
+                         "data": {"err": err, "tol": tol}})
+            break
+    obs["source_ratio"] = worst
+    # ---- operator on a polynomial test deviation
+    g = R.TestDeviation(gq["q"], gq["r"], gq["w"], [1.0 + 0.5 * a for a in range(P)])
+    gv = g.values(chi, rz, rp)
+    coef = R.values_to_coeffs(gv, M, N, bM, bN)
+    Lref, Cref = R.operator_reference(st.prof, cfg["parts"], st.Ccard, st.mult, g, M, N,
+                                      dxidchi, dpzdrz, pz, pp)
+    x = coef.reshape(-1)
+    n = x.size
+    opx = (op @ x).reshape(Lref.shape)
+    Lx = (liou.reshape(n, n) @ x).reshape(Lref.shape)
+    Cx = (coll.reshape(n, n) @ x).reshape(Lref.shape)
+    kb = R.basis_condition(M, N, bM, bN)
+    rowL = (np.abs(liou.reshape(n, n)) @ np.abs(x)).reshape(Lref.shape)
+    rowC = (np.abs(coll.reshape(n, n)) @ np.abs(x)).reshape(Lref.shape)
+    floor = 1e-300
+    checks = (("liouville", Lx, Lref, rowL), ("collision", Cx, Cref, rowC),
+              ("total", opx, Lref + Cref, rowL + rowC))
+    obs["operator_ratio"] = {}
+    for name, got, want, row in checks:
+        # rounding: derivative-matrix entries carry ~M*eps relative error, the change of
+        # basis of g adds kappa(basis)*eps
+        tol = K_OP * EPS * (M + kb) * (row + floor) + K_OP * EPS * M * np.abs(row).max()
+        ratio = float(np.max(np.abs(got - want) / tol))
+        obs["operator_ratio"][name] = ratio
+        mon["operator_exact"] += 1
+        if not (ratio <= 1.0):
+            rel = float(np.abs(got - want).max() / np.abs(want).max())
+            viol.append({"mech": f"operator-{name}-part-differs-from-closed-form",
+                         "msg": f"{name} part of buildLinearEquations applied to a polynomial "
+                                f"deviation vs closed form dchi/dxi[P_wall dg/dchi - gamma_w/2 "
+                                f"dm^2/dchi drz/dpz dg/drz] + mult*T^2*C g: relative "
+                                f"difference {rel:.3e} ({ratio:.1e} x rounding model); bases "
+                                f"{bM}/{bN} M={M} N={N} P={P} home={st.home}",
+                         "data": {"rel": rel, "ratio": ratio}})
+    return None
+
+
+# ------------------------------------------------------------------------ kind = hist
+_GRIDQ = ("xi", "pz", "pp", "dxidchi", "dpzdrz", "dppdrp")
+
+
+def _grid_quantities(grid):
+    xi, pz, pp = grid.getCoordinates()
+    dx, dpz, dpp = grid.getCompactificationDerivatives()
+    return {k: np.array(v, dtype=float, copy=True)
+            for k, v in zip(_GRIDQ, (xi, pz, pp, dx, dpz, dpp))}
+
+
+def _gridq_differ(a, b, k_eps):
+    """names of the grid quantities that differ by more than k_eps*eps*max|.|"""
+    bad = []
+    for q in _GRIDQ:
+        sc = float(np.abs(b[q]).max())
+        if not (a[q].shape == b[q].shape and float(np.abs(a[q] - b[q]).max()) <= k_eps * EPS * sc):
+            bad.append(q)
+    return bad
+
+
+def _refsys_eta(setup, f, gq):
+    """Normwise backward error of the grid function f against the reference system
+    assembled (oracles.c12_ref.reference_system) for the background the solver was given
+    and the grid quantities gq."""
+    bg = setup.background
+    msq = np.array([p.msqVacuum(bg.fieldProfiles) for p in setup.particles], dtype=float)
+    stats = [-1.0 if p["stat"] == "Fermion" else 1.0 for p in setup.parts_spec]
+    op, src = R.reference_system(bg.temperatureProfile, bg.velocityProfile, bg.velocityMid,
+                                 msq, stats, setup.Ccard, setup.mult, setup.M, setup.N, gq)
+    x = np.asarray(f, dtype=float).reshape(-1)
+    res = op @ x - src
+    den = float(np.abs(op).sum(axis=1).max()) * float(np.abs(x).max()) + float(np.abs(src).max())
+    return float(np.abs(res).max()) / den if den > 0 else 0.0
+
+
+def _attribute_stale_grid(setup, f, snaps, tol):
+    """Which quantities of an *earlier* state of the grid object make the deviation f a
+    solution?  snaps[k] = grid quantities after k rescales (0 = at solver construction)."""
+    cur = snaps[-1]
+    for k in range(len(snaps) - 2, -1, -1):
+        old = snaps[k]
+        for tag, names in (("compactification-jacobians", ("dxidchi", "dpzdrz")),
+                           ("momentum-coordinates", ("pz", "pp")),
+                           ("jacobians-and-momenta", ("dxidchi", "dpzdrz", "pz", "pp"))):
+            gq = dict(cur)
+            for q in names:
+                gq[q] = old[q]
+            if any(not np.array_equal(gq[q], cur[q]) for q in names) \
+                    and _refsys_eta(setup, f, gq) <= tol:
+                return tag, k
+    return None, None
+
+
+def _case_hist(case):
+    import WallGo
+    cfg = case["cfg"]
+    rng = np.random.default_rng(case["s"])
+    bgtype, plan = cfg["bg"]["type"], case["plan"]
+    steps = case["steps"]
+    viol, obs = [], {"bg": bgtype, "bgkind": cfg["bg"]["kind"], "plan": plan,
+                     "grid": cfg["gridKind"], "M": cfg["M"], "N": cfg["N"],
+                     "P": len(cfg["parts"]), "early": case["early"], "warm": case["warm"],
+                     "ops": [f"{t['op']}:{t['which']}:{'near' if t['near'] else 'far'}"
+                             for t in steps]}
+    cls = ["hist", "hist:" + plan, "hist:" + cfg["gridKind"], "hist:bg:" + bgtype]
+    with _Session():
+        mon = REC.mon
+        setup = Setup(cfg)
+        M, N = setup.M, setup.N
+        grid = setup.grid
+        snaps = [_grid_quantities(grid)]
+        amin = setup.minAmplitude()
+        # rounding model of the reference system, see K_REF
+        tol_ref = K_REF * EPS * M * M * (1.0 + 1.0 / amin)
+        obs["tol_ref"] = tol_ref
+        alive = [setup.background]          # replaced backgrounds stay referenced (id reuse)
+
+        # ---- solvers constructed on the grid as it is *before* any rescale
+        earlies = []
+        for bM, bN, mode in case["early"]:
+            def mk(bM=bM, bN=bN, mode=mode):
+                sv = WallGo.BoltzmannSolver(grid, bM, bN, mode, collisionMultiplier=setup.mult)
+                sv.updateParticleList(setup.particles)
+                if case["warm"]:
+                    sv.setBackground(setup.background)
+                    sv.setCollisionArray(setup.collisionArray(bN))
+                    sv.solveBoltzmannEquations()
+                return sv
+            earlies.append(_guarded(mk, viol, f"early solver {bM}/{bN} {mode}"))
+        _collect(viol, None, "solve on the initial grid")
+
+        # ---- the grid object is rescaled in place, possibly several times
+        stage_etas = []
+        pristine = None
+        for k, stp in enumerate(steps):
+            last = k == len(steps) - 1
+            _guarded(lambda stp=stp: setup.rescaleInPlace(stp["op"], stp["state"]), viol,
+                     f"rescale {stp['op']} step {k}")
+            mon["hist_rescale_calls"] += 1
+            now = _grid_quantities(grid)
+            moved = [q for q in _GRIDQ if not np.array_equal(now[q], snaps[-1][q])]
+            mon["hist_grid_state_changed"] += int(bool(moved))
+            snaps.append(now)
+            alive.append(setup.resample())
+            # a grid built from scratch with the same parameters is the yardstick for "the
+            # actual current grid" (plain Grid: additionally the documented closed form)
+            pristine = Setup(cfg, gridState=stp["state"])
+            pq = _grid_quantities(pristine.grid)
+            mon["hist_grid_vs_fresh_grid"] += 1
+            bad = _gridq_differ(now, pq, 8)
+            if cfg["gridKind"] == "Grid":
+                cf = R.plain_grid_closed_form(M, N, stp["state"]["L"] * setup.L,
+                                              stp["state"]["Tmom"] * setup.T0)
+                bad += [q + "(closed form)" for q in cf
+                        if not float(np.abs(now[q] - cf[q]).max()) <= 64 * EPS * float(np.abs(cf[q]).max())]
+            if bad:
+                viol.append({"mech": "grid-rescaled-in-place-differs-from-grid-built-with-same-parameters",
+                             "msg": f"after {cfg['gridKind']} {stp['op']} rescale (step {k}, "
+                                    f"{stp['which']}) the cached {bad} differ from a grid constructed "
+                                    f"with the same parameters", "data": {"bad": bad}})
+                return _finish(case, obs, viol, cls, None, True)
+            if not (last or case["interleave"]):
+                continue
+            if last:
+                break
+            # intermediate stage, as in the EOM loop: new background, solve again
+            for sv, (bM, bN, mode) in zip(earlies, case["early"]):
+                def again(sv=sv, bN=bN):
+                    sv.setBackground(setup.background)
+                    if sv.collisionArray is None or not case["keep_coll"]:
+                        sv.setCollisionArray(setup.collisionArray(bN))
+                    return sv.solveBoltzmannEquations()
+                df = np.asarray(_guarded(again, viol, f"stage {k} {bM}/{bN} {mode}"), dtype=float)
+                if mode == "Spectral" and df.shape == (len(setup.particles), M - 1, N - 1, N - 1):
+                    eta = _refsys_eta(setup, R.coeffs_to_values(df, M, N, bM, bN), pq)
+                    mon["hist_refsys_judged"] += 1
+                    stage_etas.append(eta)
+                    if not (eta <= tol_ref):
+                        tag, kk = _attribute_stale_grid(setup, R.coeffs_to_values(df, M, N, bM, bN),
+                                                        snaps, tol_ref)
+                        viol.append(_stale_violation(tag, kk, eta, tol_ref, k, len(steps), bM, bN,
+                                                     cfg, stp))
+            _collect(viol, None, f"stage {k}")
+
+        # ---- final stage: early solvers (new background) vs solvers constructed now
+        pq = _grid_quantities(pristine.grid)
+        runs_e, runs_f = [], {}
+        for sv, (bM, bN, mode) in zip(earlies, case["early"]):
+            def prep(sv=sv, bN=bN):
+                sv.setBackground(setup.background)
+                if sv.collisionArray is None or not case["keep_coll"]:
+                    sv.setCollisionArray(setup.collisionArray(bN))
+            _guarded(prep, viol, f"early {bM}/{bN} {mode} after the rescale")
+            runs_e.append(_run(setup, bM, bN, mode, viol,
+                               f"solver {bM}/{bN} {mode} built before the rescale", solver=sv))
+        for bM, bN, mode in [["Cardinal", "Cardinal", "Spectral"]] + case["early"]:
+            if (bM, bN, mode) not in runs_f:
+                runs_f[bM, bN, mode] = _run(setup, bM, bN, mode, viol,
+                                            f"solver {bM}/{bN} {mode} built after the rescale")
+        ref = runs_f["Cardinal", "Cardinal", "Spectral"]
+        rp = _run(pristine, "Cardinal", "Cardinal", "Spectral", viol, "solver on a grid built "
+                  "from scratch with the final parameters")
+        allruns = runs_e + list(runs_f.values()) + [rp]
+        obs["n"] = ref["n"]
+        obs["eta_max"] = max(r["eta"] for r in allruns)
+        if any(r["vals"] is None for r in allruns):
+            return _finish(case, obs, viol, cls, None, False)
+        kmax = max(r["kappa"] for r in allruns)
+        obs["kappa"] = kmax
+        if not np.isfinite(kmax) or kmax > KAPPA_MAX:
+            return _finish(case, obs, viol, cls,
+                           f"inadmissible: kappa_1 = {kmax:.2e} > {KAPPA_MAX:g}", False)
+        fscale = float(np.abs(ref["vals"]).max())
+        obs["deltaF_inf"] = fscale
+        if not fscale > 0:
+            return _finish(case, obs, viol, cls, "reference deltaF is zero", False)
+        tau = K_FWD * EPS * kmax
+        obs["tau_deltaF"] = tau
+        hist_desc = (f"{cfg['gridKind']} rescaled in place {obs['ops']} after the solver was "
+                     f"constructed; M={M} N={N} P={obs['P']} bg={bgtype}/{cfg['bg']['kind']} "
+                     f"warm={case['warm']}")
+
+        # (a) reference system of the ACTUAL grid: control (solver built after) and early ones
+        eta_c = _refsys_eta(setup, ref["vals"], pq)
+        mon["hist_refsys_judged"] += 1
+        obs["refsys_eta_control"] = eta_c
+        control_ok = eta_c <= tol_ref
+        if not control_ok:
+            viol.append({"mech": "solution-violates-reference-system",
+                         "msg": f"deltaF of a freshly built Cardinal/Cardinal spectral solver has "
+                                f"backward error {eta_c:.3e} > {tol_ref:.2e} against the "
+                                f"independently assembled system ({hist_desc})",
+                         "data": {"eta": eta_c, "tol": tol_ref}})
+        for r, (bM, bN, mode) in zip(runs_e, case["early"]):
+            if mode != "Spectral":
+                continue
+            eta = _refsys_eta(setup, r["vals"], pq)
+            mon["hist_refsys_judged"] += 1
+            stage_etas.append(eta)
+            if not (eta <= tol_ref) and control_ok:
+                tag, kk = _attribute_stale_grid(setup, r["vals"], snaps, tol_ref)
+                viol.append(_stale_violation(tag, kk, eta, tol_ref, len(steps) - 1, len(steps),
+                                             bM, bN, cfg, steps[-1]))
+        obs["refsys_eta_max"] = max(stage_etas) if stage_etas else None
+        obs["refsys_units"] = (max(stage_etas + [eta_c])) / (EPS * M * M * (1.0 + 1.0 / amin))
+
+        # (b) same configuration, solver built before vs after the rescale
+        worst_tw = 0.0
+        for r, spec in zip(runs_e, case["early"]):
+            tw = runs_f[tuple(spec)]
+            err = float(np.abs(r["vals"] - tw["vals"]).max()) / fscale
+            mon["hist_early_vs_fresh"] += 1
+            worst_tw = max(worst_tw, err)
+            if not (err <= tau):
+                viol.append({"mech": "solver-built-before-grid-rescale-differs-from-fresh-solver",
+                             "msg": f"{spec[0]}/{spec[1]} {spec[2]}: deltaF of the solver that "
+                                    f"existed before the rescale differs from an identically "
+                                    f"configured solver constructed afterwards on the same grid "
+                                    f"object by {err:.3e} (relative), tolerance {tau:.2e} = "
+                                    f"{K_FWD:g}*eps*kappa_1; {hist_desc}",
+                             "data": {"err": err, "tol": tau}})
+                break
+        obs["early_vs_fresh"] = worst_tw
+        # (b') the grid object's history must not matter either
+        errp = float(np.abs(rp["vals"] - ref["vals"]).max()) / fscale
+        mon["hist_fresh_grid_solver"] += 1
+        obs["mutated_vs_fresh_grid"] = errp
+        if not (errp <= tau):
+            viol.append({"mech": "solution-on-rescaled-grid-differs-from-grid-built-with-same-parameters",
+                         "msg": f"Cardinal/Cardinal deltaF on the grid rescaled in place vs on a "
+                                f"grid constructed with the final parameters: {errp:.3e} "
+                                f"(tolerance {tau:.2e}); {hist_desc}",
+                         "data": {"err": errp, "tol": tau}})
+
+        # (c) basis independence across the rescale + derived quantities
+        worst_b, bad_b = 0.0, {}
+        for r, (bM, bN, mode) in zip(runs_e, case["early"]):
+            if mode != "Spectral":
+                continue
+            err = float(np.abs(r["vals"] - ref["vals"]).max()) / fscale
+            mon["hist_basis_across_rescale"] += 1
+            worst_b = max(worst_b, err)
+            if not (err <= tau):
+                bad_b[f"{bM}/{bN}"] = err
+        obs["basis_across_rescale"] = worst_b
+        if bad_b:
+            viol.append({"mech": "deltaF-differs-between-bases-across-grid-rescale",
+                         "msg": f"deltaF on the grid: solver(s) built before the rescale {bad_b} vs "
+                                f"Cardinal/Cardinal solver built after it (relative to max|deltaF|), "
+                                f"tolerance {tau:.2e}; {hist_desc}",
+                         "data": {"err": bad_b, "tol": tau}})
+        else:
+            q0, S = _sensitivities(ref, setup, rng)
+            others = {f"{sp[0]}/{sp[1]} built before the rescale": r["derived"]
+                      for r, sp in zip(runs_e, case["early"]) if sp[2] == "Spectral"}
+            others["Cardinal/Cardinal on a fresh grid"] = rp["derived"]
+            obs["derived"] = _judge_derived(
+                q0, S, tau, others, mon, viol, "hist_derived",
+                lambda name: f"{_DER_MECH[name]}-differ-across-grid-rescale",
+                "Cardinal/Cardinal built after the rescale", hist_desc)
+            for r, sp in zip(runs_e, case["early"]):
+                if sp[2] != "Spectral":     # finite differences: against its own twin
+                    tw = runs_f[tuple(sp)]
+                    _judge_derived(tw["derived"], S, tau, {"the same built before the rescale":
+                                                           r["derived"]},
+                                   mon, viol, "hist_derived",
+                                   lambda name: f"{_DER_MECH[name]}-differ-across-grid-rescale",
+                                   "finite-difference solver built after the rescale", hist_desc)
+
+        # (d) polynomial backgrounds: closed-form exactness on the rescaled grid
+        if cfg["bg"]["kind"] == "poly":
+            k0 = next(i for i, sp in enumerate(case["early"]) if sp[2] == "Spectral")
+            bM, bN, _ = case["early"][k0]
+            gq = {q: pq[q] for q in ("dxidchi", "dpzdrz", "pz", "pp")}
+            v_e, o_e = [], {}
+            built = _guarded(earlies[k0].buildLinearEquations, viol, "hist phys")
+            why = _phys_oracles(cfg, setup, earlies[k0], built, bM, bN, case["g"], gq, v_e, o_e, mon)
+            mon["hist_exactness"] += int(why is None)
+            obs["exact"] = o_e
+            if v_e:
+                v_t, s_t = [], runs_f[bM, bN, "Spectral"]["solver"]
+                _phys_oracles(cfg, setup, s_t, _guarded(s_t.buildLinearEquations, viol, "hist phys"),
+                              bM, bN, case["g"], gq, v_t, {}, collections.Counter())
+                for v in v_e:
+                    if not v_t:          # a solver built after the rescale is exact
+                        v = dict(v, mech=v["mech"] + "-after-grid-rescale",
+                                 msg=v["msg"] + " [" + hist_desc + "]")
+                    viol.append(v)
+            _collect(viol, None, "hist phys")
+        return _finish(case, obs, viol, cls, None, True)
+
+
+def _stale_violation(tag, kk, eta, tol, k, nsteps, bM, bN, cfg, stp):
+    if tag is None:
+        mech = "solver-built-before-grid-rescale-violates-system-of-current-grid"
+        why = "no earlier state of the grid quantities explains it"
+    else:
+        mech = f"solver-uses-{tag}-of-grid-before-rescale"
+        why = (f"it does satisfy the system assembled with the {tag} the grid object had "
+               f"after {kk} of its rescales (0 = when the solver was constructed)")
+    return {"mech": mech,
+            "msg": f"{bM}/{bN} spectral solver constructed before {cfg['gridKind']}."
+                   f"{'changeMomentumFalloffScale' if stp['op'] == 'mom' else 'changePositionFalloffScale'}"
+                   f" (rescale {k + 1} of {nsteps}, {stp['which']}, "
+                   f"{'near-identity' if stp['near'] else 'far'}): returned deltaF has backward "
+                   f"error {eta:.3e} > {tol:.2e} against the independently assembled system of the "
+                   f"current grid; {why}",
+            "data": {"eta": eta, "tol": tol, "stale": tag, "stage": kk}}
+
+
 def run_case(case):
-    fn = {"basis": _case_basis, "conv": _case_conv, "phys": _case_phys}[case["kind"]]
+    fn = {"basis": _case_basis, "conv": _case_conv, "phys": _case_phys, "hist": _case_hist}[case["kind"]]
     try:
         return fn(case)
     except CodeRaised as exc:
@@ -1120,6 +1661,7 @@ def summarize(results, tier):
     bas = [r["obs"] for r in results if r["case"]["kind"] == "basis" and not r["inconclusive"]]
     con = [r["obs"] for r in results if r["case"]["kind"] == "conv" and not r["inconclusive"]]
     phy = [r["obs"] for r in results if r["case"]["kind"] == "phys" and not r["inconclusive"]]
+    his = [r["obs"] for r in results if r["case"]["kind"] == "hist" and not r["inconclusive"]]
     out = {
         "backward_error_over_n_eps": _stats([num(o.get("eta_max")) / (o["n"] * EPS)
                                              for o in bas if o.get("n")]),
@@ -1153,12 +1695,32 @@ def summarize(results, tier):
                  "example_series": next(({"Ms": o["Ms"], "dS": o["dS"], "dL": o["dL"]}
                                          for o in con if o["bg"] == bg), None)}
             for bg in BG_TYPES},
+        "history": {
+            "refsys_backward_error_in_model_units (tolerance at %g)" % K_REF:
+                _stats([num(o.get("refsys_units")) for o in his]),
+            "refsys_backward_error": _stats([num(o.get("refsys_eta_max")) for o in his]),
+            "early_vs_fresh_solver_deltaF": _stats([num(o.get("early_vs_fresh")) for o in his]),
+            "rescaled_vs_fresh_grid_deltaF": _stats([num(o.get("mutated_vs_fresh_grid")) for o in his]),
+            "basis_across_rescale_err_over_eps_kappa": _stats(
+                [num(o.get("basis_across_rescale")) / (EPS * num(o.get("kappa")))
+                 for o in his if "basis_across_rescale" in o]),
+            "derived_worst_ratio_to_tolerance": {
+                name: _stats([num(o["derived"][name]["worst_ratio"]) for o in his
+                              if "derived" in o and name in o["derived"]])
+                for name in _DER_MECH},
+            "exactness_after_rescale_ratio_to_tolerance": _stats(
+                [max([num(o["exact"].get("source_ratio", 0.0))]
+                     + [num(v) for v in o["exact"].get("operator_ratio", {}).values()])
+                 for o in his if o.get("exact")]),
+            "plans": dict(collections.Counter(o["plan"] for o in his)),
+            "operations": dict(collections.Counter(op for o in his for op in o["ops"])),
+        },
         "source_exactness_ratio_to_tolerance": _stats([num(o.get("source_ratio")) for o in phy]),
         "operator_exactness_ratio_to_tolerance": {
             k: _stats([num(o["operator_ratio"].get(k)) for o in phy if "operator_ratio" in o])
             for k in ("liouville", "collision", "total")},
         "tolerance_constants": {"K_BE": K_BE, "K_FWD": K_FWD, "K_DER": K_DER, "K_HOM": K_HOM,
                                 "FD_MIN_ORDER": FD_MIN_ORDER, "FD_MAX_FINEST": FD_MAX_FINEST,
-                                "K_SRC": K_SRC, "K_OP": K_OP, "KAPPA_MAX": KAPPA_MAX},
+                                "K_SRC": K_SRC, "K_OP": K_OP, "K_REF": K_REF, "KAPPA_MAX": KAPPA_MAX},
     }
     return out
